@@ -63,6 +63,9 @@ fn run(case: &Value) -> Vec<Value> {
             vec![json!({"a":"cols","case":id,"from":from,"sn":sn,"names":names,"back":back})]
         }
         "coords" => {
+            // one Coordinate object parses every string of the batch in turn (q3): what it shows must not
+            // depend on what it held before
+            let mut reused = Coordinate::default();
             let items: Vec<Value> = case["items"]
                 .as_array()
                 .unwrap()
@@ -71,6 +74,17 @@ fn run(case: &Value) -> Vec<Value> {
                     let (c, r, lc, lr) = (u(it, "c"), u(it, "r"), b(it, "lc"), b(it, "lr"));
                     let st = s(it, "s").to_string();
                     let st2 = st.clone();
+                    let st3 = st.clone();
+                    let mut taken = std::mem::take(&mut reused);
+                    let (q3, back) = match std::panic::catch_unwind(std::panic::AssertUnwindSafe(move || {
+                        taken.set_coordinate(&st3);
+                        let v = json!([taken.get_col_num(), taken.get_row_num(), taken.get_is_lock_col(), taken.get_is_lock_row()]);
+                        (v, taken)
+                    })) {
+                        Ok((v, t)) => (v, t),
+                        Err(_) => (json!("panic"), Coordinate::default()),
+                    };
+                    reused = back;
                     let p = guard(move || json!(coordinate::coordinate_from_index_with_lock(&c, &r, &lc, &lr)));
                     let p0 = guard(move || json!(coordinate::coordinate_from_index(&c, &r)));
                     let q = guard(move || opt_tuple(coordinate::index_from_coordinate(&st)));
@@ -86,19 +100,31 @@ fn run(case: &Value) -> Vec<Value> {
                         co.set_coordinate(&st2);
                         json!([co.get_col_num(), co.get_row_num(), co.get_is_lock_col(), co.get_is_lock_row()])
                     });
-                    finish(json!({"c":c,"r":r,"lc":lc,"lr":lr,"s":it["s"],"p":p,"p0":p0,"q":q,"p2":p2,"q2":q2}))
+                    finish(json!({"c":c,"r":r,"lc":lc,"lr":lr,"s":it["s"],"p":p,"p0":p0,"q":q,"p2":p2,"q2":q2,"q3":q3}))
                 })
                 .collect();
             vec![json!({"a":"coords","case":id,"items":items})]
         }
         "ranges" => {
+            // one Range object parses every string of the batch in turn (rc3)
+            let mut reused = Range::default();
             let items: Vec<Value> = case["items"]
                 .as_array()
                 .unwrap()
                 .iter()
                 .map(|it| {
                     let st = s(it, "s").to_string();
-                    let (s1, s2) = (st.clone(), st.clone());
+                    let (s1, s2, s3) = (st.clone(), st.clone(), st.clone());
+                    let mut taken = std::mem::take(&mut reused);
+                    let (rc3, back) = match std::panic::catch_unwind(std::panic::AssertUnwindSafe(move || {
+                        taken.set_range(s3);
+                        let v = range_record(&taken);
+                        (v, taken)
+                    })) {
+                        Ok((v, t)) => (v, t),
+                        Err(_) => (json!("panic"), Range::default()),
+                    };
+                    reused = back;
                     // helper::range enumerates cells: its contract ("Non-standard range.") covers
                     // cell and cell:cell only, whole rows/columns go through structs::Range below
                     let kind = s(&it["g"], "k");
@@ -120,7 +146,7 @@ fn run(case: &Value) -> Vec<Value> {
                         r.set_range(s2);
                         range_record(&r)
                     });
-                    finish(json!({"g":it["g"],"s":it["s"],"corners":corners,"rs":rs,"rc":rc}))
+                    finish(json!({"g":it["g"],"s":it["s"],"corners":corners,"rs":rs,"rc":rc,"rc3":rc3}))
                 })
                 .collect();
             vec![json!({"a":"ranges","case":id,"items":items})]
